@@ -120,7 +120,10 @@ func (ls ListSpec) Build() *astisub.Subtitles {
 		// escapes, a composed letter, several runs; every slice has spare capacity (an in-place append shows there)
 		runs := make([]astisub.LineItem, 0, 4)
 		runs = append(runs, astisub.LineItem{Text: fmt.Sprintf(" cue %d a&b<c ", k), InlineStyle: &astisub.StyleAttributes{SRTBold: true, WebVTTTags: []astisub.WebVTTTag{{Name: "b"}}}},
-			astisub.LineItem{Text: "\u00e9 x ", StartAt: time.Duration(k+1)*time.Second + 500*time.Millisecond})
+			astisub.LineItem{Text: "\u00e9 x ", StartAt: time.Duration(k+1)*time.Second + 500*time.Millisecond,
+				// values behind pointers in a spelling a normalising writer would fold (upper-case hex, outer blanks): a
+				// writer may fold what it writes, not the caller's string (seed c19aj)
+				InlineStyle: &astisub.StyleAttributes{TTMLColor: astikit.StrPtr("#FFFF00"), SRTColor: astikit.StrPtr("#FF00FF"), TTMLFontStyle: astikit.StrPtr("Italic")}})
 		lines := make([]astisub.Line, 0, 3)
 		lines = append(lines, astisub.Line{VoiceName: "v", Items: runs}, astisub.Line{Items: []astisub.LineItem{{Text: "second"}}})
 		comments := make([]string, 0, 2)
